@@ -143,20 +143,44 @@ type vc08Call struct {
 	id     int
 	fail   string
 	cancel context.CancelFunc
+	hold   bool // hold this call's OnRollback functions until the store's `release` channel is closed
 }
 
 var errVc08Injected = errors.New("verif: injected write failure")
 
 type vc08Store struct {
 	stoabs.KVStore
-	mu    sync.Mutex
-	order []int
+	mu         sync.Mutex
+	order      []int
+	rolledBack chan struct{} // closed when a held call's transaction has been rolled back (write lock released)
+	release    chan struct{} // closed to let the held OnRollback functions run
 }
 
 func (v *vc08Store) Write(ctx context.Context, fn func(stoabs.WriteTx) error, opts ...stoabs.TxOption) error {
 	call, _ := ctx.Value(vc08CallKey{}).(*vc08Call)
 	if call == nil {
 		return v.KVStore.Write(ctx, fn, opts...)
+	}
+	if call.hold {
+		// go-stoabs releases its write lock BEFORE it calls the OnRollback functions: widen that window
+		held := make([]stoabs.TxOption, 0, len(opts))
+		first := true
+		for _, o := range opts {
+			if rb, ok := o.(*stoabs.OnRollbackOption); ok {
+				orig, isFirst := rb, first
+				first = false
+				held = append(held, stoabs.OnRollback(func() {
+					if isFirst {
+						close(v.rolledBack)
+						<-v.release
+					}
+					stoabs.OnRollbackOption{}.Invoke([]stoabs.TxOption{orig})
+				}))
+			} else {
+				held = append(held, o)
+			}
+		}
+		opts = held
 	}
 	return v.KVStore.Write(ctx, func(tx stoabs.WriteTx) error {
 		err := fn(tx)
@@ -317,7 +341,9 @@ func vc08ErrClass(err error) string {
 	return "err:other:" + err.Error()
 }
 
-func (r *vc08Run) doAdd(op *vc08Op, id int) string {
+func (r *vc08Run) doAdd(op *vc08Op, id int) string { return r.doAddHold(op, id, false) }
+
+func (r *vc08Run) doAddHold(op *vc08Op, id int, hold bool) string {
 	k := r.tx(op)
 	var payload []byte
 	switch op.Payload {
@@ -328,7 +354,7 @@ func (r *vc08Run) doAdd(op *vc08Op, id int) string {
 	}
 	ctx, cancel := context.WithCancel(context.Background())
 	defer cancel()
-	ctx = context.WithValue(ctx, vc08CallKey{}, &vc08Call{id: id, fail: op.Fail, cancel: cancel})
+	ctx = context.WithValue(ctx, vc08CallKey{}, &vc08Call{id: id, fail: op.Fail, cancel: cancel, hold: hold})
 	if op.Save != "" {
 		r.notif.mu.Lock()
 		r.notif.fail = op.Save
@@ -735,6 +761,47 @@ func (r *vc08Run) exec(op *vc08Op) {
 			}
 			op.Op = "obs"
 			tag = "obs"
+		case "race":
+			// Add(a) fails at commit; Add(b) is started after a's transaction was rolled back (write lock free) and
+			// BEFORE a's rollback handler has reloaded the trees; the handler is released once b is done or has been
+			// blocked for a while. Both orders of "reload" and "b" must give what the stored set implies.
+			a, b := op.adds[0], op.adds[1]
+			r.tx(a)
+			r.tx(b)
+			r.db.order = nil
+			r.db.rolledBack, r.db.release = make(chan struct{}), make(chan struct{})
+			resA, resB := make(chan string, 1), make(chan string, 1)
+			go func() { resA <- r.doAddHold(a, 0, true) }()
+			select {
+			case <-r.db.rolledBack:
+			case <-time.After(5 * time.Second):
+			}
+			go func() { resB <- r.doAdd(b, 1) }()
+			rb, gotB := "", false
+			select {
+			case rb = <-resB:
+				gotB = true
+			case <-time.After(30 * time.Millisecond):
+			}
+			close(r.db.release)
+			ra := <-resA
+			if !gotB {
+				rb = <-resB
+			}
+			if gotB {
+				r.stats["race:b-ran-inside-window"]++
+			} else {
+				r.stats["race:b-waited-for-reload"]++
+			}
+			r.emit(&vc08Op{Op: "race", N: 2, Xs: []uint32{}, Is: []uint32{}, Ws: []uint32{}}, "race", "ok")
+			for i, x := range []*vc08Op{a, b} {
+				x.Quiet = true
+				x.Xs, x.Is, x.Ws = []uint32{}, []uint32{}, []uint32{}
+				r.fillTx(x)
+				r.emit(x, []string{ra, rb}[i], "ok")
+			}
+			op.Op = "obs"
+			tag = "obs"
 		case "obs":
 		case "restart":
 			r.close()
@@ -967,6 +1034,26 @@ func (g *vc08Gen) history(label string, n, width int) {
 				continue
 			}
 			g.ops = append(g.ops, g.newTx(nil, 0))
+		case rare(2): // a failing Add racing with the next Add (rollback handler runs after the write lock is released)
+			if len(g.added) == 0 {
+				continue
+			}
+			a := g.valid(width)
+			b := g.valid(width)
+			if g.rng.Intn(2) == 0 { // same prevs, same clock, same page
+				b = g.newTx(a.Pi, a.Clk)
+			}
+			fa := *a
+			fa.Fail = []string{"fn", "ctx"}[g.rng.Intn(2)]
+			g.ops = append(g.ops, &vc08Op{Op: "race", adds: []*vc08Op{&fa, b}, fullObs: true})
+			g.commit(b)
+			if g.rng.Intn(2) == 0 {
+				g.ops = append(g.ops, a)
+				g.commit(a)
+			}
+			if g.rng.Intn(3) == 0 {
+				g.ops = append(g.ops, &vc08Op{Op: "restart", fullObs: true})
+			}
 		case rare(2): // a notifier's Save fails inside the write transaction (before or after graph.add), then the retry
 			op := g.valid(width)
 			f := *op
@@ -1102,7 +1189,7 @@ func (g *vc08Gen) exhaustive(label string, n, width int) {
 		g.commit(op)
 	}
 	for pos := 0; pos < n; pos++ {
-		for _, fault := range []string{"fn", "ctx", "restart", "bad-payload", "save-payload", "save-tx"} {
+		for _, fault := range []string{"fn", "ctx", "restart", "bad-payload", "save-payload", "save-tx", "race"} {
 			g.ops = append(g.ops, &vc08Op{Op: "new", Hist: fmt.Sprintf("%s-pos%d-%s", label, pos, fault)})
 			for i, b := range base {
 				op := &vc08Op{Op: "add", I: i, Pi: b.pi, Clk: b.clk, Payload: "ok", Fail: "none"}
@@ -1116,6 +1203,11 @@ func (g *vc08Gen) exhaustive(label string, n, width int) {
 						f := *op
 						f.Payload = "bad"
 						g.ops = append(g.ops, &f)
+					case "race":
+						f := *op
+						f.Fail = "fn"
+						sib := &vc08Op{Op: "add", I: 1000 + i, Pi: b.pi, Clk: b.clk, Payload: "nil", Fail: "none"}
+						g.ops = append(g.ops, &vc08Op{Op: "race", adds: []*vc08Op{&f, sib}, fullObs: true})
 					case "save-payload", "save-tx":
 						f := *op
 						f.Save = strings.TrimPrefix(fault, "save-")
@@ -1211,7 +1303,7 @@ func TestVerifC08(t *testing.T) {
 		for i := 0; i < len(ops); i++ {
 			op := ops[i]
 			flat = append(flat, op)
-			if op.Op == "batch" { // the next N quiet adds ran concurrently; the following obs line is re-emitted by the batch
+			if op.Op == "batch" || op.Op == "race" { // the next N quiet adds ran concurrently; the following obs line is re-emitted
 				for k := 0; k < op.N && i+1 < len(ops); k++ {
 					i++
 					a := ops[i]
